@@ -163,6 +163,11 @@ func BuildPtrDefault(seg *capnp.Segment, ty Type, d Default) (capnp.Ptr, error) 
 	return capnp.Ptr{}, fmt.Errorf("sgen: no pointer default for %v", ty)
 }
 
+// BuildList builds a list with element type et from d (library primitives).
+func BuildList(seg *capnp.Segment, et Type, d Default) (capnp.List, error) {
+	return buildList(seg, et, d)
+}
+
 func buildList(seg *capnp.Segment, et Type, d Default) (capnp.List, error) {
 	n := int32(len(d.Elems))
 	switch et.Kind {
@@ -246,7 +251,15 @@ func buildList(seg *capnp.Segment, et Type, d Default) (capnp.List, error) {
 			}
 		}
 		return l, nil
+	case Interface, AnyPointer:
+		// elements stay null
+		l, err := capnp.NewPointerList(seg, n)
+		return l.List, err
 	case List:
+		if d.Sub == nil || (et.Elem.Kind.IsPtr() || et.Elem.Kind == Void) {
+			l, err := capnp.NewPointerList(seg, n)
+			return l.List, err
+		}
 		l, err := capnp.NewPointerList(seg, int32(len(d.Sub)))
 		if err != nil {
 			return capnp.List{}, err
